@@ -1,6 +1,6 @@
 SPECIFICATION Spec
 CONSTANTS
-  ThrKinds = {"none", "below_min", "selective"}
+  ThrKinds = {"none", "below_min", "selective", "selective_zero"}
   Variant = "delete_after_filter"
   MaxDepth = 3
   Emit = "leaves"
